@@ -40,6 +40,19 @@ def parseNodes : Nat → Nat → List String → Option (List RNode × List Stri
     pure (c :: cs, r)
 end
 
+/-- `m n c1..cn` repeated -/
+def parseCalls : Nat → List String → Option (List (Bool × List Nat))
+  | 0, _ => none
+  | _ + 1, [] => some []
+  | f + 1, m :: n :: r => do
+    let m ← flag? m; let n ← n.toNat?
+    let cs ← natList? (r.take n)
+    if (r.take n).length = n then
+      let rest ← parseCalls f (r.drop n)
+      pure ((m, cs) :: rest)
+    else none
+  | _ + 1, _ => none
+
 def handle : List String → String
   | "esc" :: m :: ws =>
     match flag? m, natList? ws with
@@ -60,6 +73,13 @@ def handle : List String → String
   | "dec" :: ws =>
     match natList? ws with
     | some s => s!"{showNats (decode s)}\t{showNats (decode s)}"
+    | none => "bad-op"
+  | "hist" :: ws =>
+    match parseCalls (ws.length + 1) ws with
+    | some calls =>
+      let outs := textDefaultSeq calls
+      let exp := calls.map fun c => if c.1 then "M" else showNats c.2
+      s!"{" | ".intercalate (outs.map showNats)}\t{" | ".intercalate exp}"
     | none => "bad-op"
   | "tree" :: ws =>
     match parseNode (ws.length + 1) ws with
